@@ -167,6 +167,7 @@ def handle (line : String) : String :=
   | op :: id :: _fam :: args =>
     let res := match op with
       | "insphere" => opInsphere args
+      | "clip1" => opInsphere args
       | "tess" => opTess args
       | "cells" => opTess args
       | "tets" => opTess args
